@@ -401,6 +401,103 @@ Definition C05_all_builtins_rel_full : Prop :=
       (fun b => match b with B_unique | B_includes => false | _ => true end)
       nanfix binop_impl EvalFull.builtin_full.
 
+(* ================================================================================================
+   REL round: [C05_all_builtins_rel_full] is PROVED (proofs/RelPure.v: every pure arm of
+   EvalFull.builtin_full and sort_by / group_by / count_by respect any structural value relation;
+   proofs/EmitHOOpsFull.v: the instance R := vrel).  [biok_full] = every built-in except unique and
+   includes, whose arms apply Value::equals to argument elements (finding F53) — the exclusion is
+   necessary: [C05_includes_function_equality_refuted], [C05_all_builtins_unrestricted_refuted].
+   Hence the simulation and the emission equivalence hold for bodies that mention ANY other built-in
+   (aggregates, list / string / record built-ins, convert round random to_number to_string join,
+   sort_by group_by count_by, and the untranscribed ones, which are Unmodelled on both sides).
+   ================================================================================================ *)
+Require Import Blots.proofs.RelPure Blots.proofs.EmitHOOpsFull.
+
+Theorem C05_all_builtins_rel_full_proved : C05_all_builtins_rel_full.
+Proof. exact impl_rel_full_all. Qed.
+Check C05_all_builtins_rel_full_proved : forall nanfix,
+  impl_rel_respecting eqfree biok_full nanfix binop_impl EvalFull.builtin_full.
+Print Assumptions C05_all_builtins_rel_full_proved.
+
+(* the shortcut behind most arms: related values with no function inside are EQUAL *)
+Theorem C05_related_function_free_equal : forall opok biok nanfix v v',
+  vrel opok biok nanfix v v' -> BuiltinsText.has_function v = false -> v = v'.
+Proof. exact vrel_nofun_eq. Qed.
+Check C05_related_function_free_equal : forall opok biok nanfix v v',
+  vrel opok biok nanfix v v' -> BuiltinsText.has_function v = false -> v = v'.
+Print Assumptions C05_related_function_free_equal.
+
+Theorem C05_ho_simulation_full : forall release nanfix d fr fr' this this' f f' args args' st st',
+  vrel eqfree biok_full nanfix f f' -> lrel eqfree biok_full nanfix args args' ->
+  orel eqfree biok_full nanfix (fst (AD release binop_impl EvalFull.builtin_full d fr this f args st))
+                               (fst (AD release binop_impl EvalFull.builtin_full d fr' this' f' args' st')).
+Proof. exact ho_simulation_all. Qed.
+Check C05_ho_simulation_full : forall release nanfix d fr fr' this this' f f' args args' st st',
+  vrel eqfree biok_full nanfix f f' -> lrel eqfree biok_full nanfix args args' ->
+  orel eqfree biok_full nanfix (fst (AD release binop_impl EvalFull.builtin_full d fr this f args st))
+                               (fst (AD release binop_impl EvalFull.builtin_full d fr' this' f' args' st')).
+Print Assumptions C05_ho_simulation_full.
+
+Theorem C05_emit_equiv_higher_order_full :
+  forall release nanfix d fr fr' this this' id id' ps b sc args st st' r,
+    emit_ok eqfree biok_full (VLam id ps b sc) = true ->
+    forallb (emit_ok eqfree biok_full) args = true ->
+    fst (AD release binop_impl EvalFull.builtin_full d fr this (VLam id ps b sc) args st) = r ->
+    exists r', fst (AD release binop_impl EvalFull.builtin_full d fr' this'
+                       (VLam id' ps (subst true (scope_map nanfix true sc) b) []) args st') = r' /\
+      orel eqfree biok_full nanfix r r' /\
+      (forall v, r = Ok v -> lf v = true -> r' = Ok v) /\ (r = ErrDepth <-> r' = ErrDepth).
+Proof. exact emit_equiv_ho_same_args_all. Qed.
+Check C05_emit_equiv_higher_order_full :
+  forall release nanfix d fr fr' this this' id id' ps b sc args st st' r,
+    emit_ok eqfree biok_full (VLam id ps b sc) = true ->
+    forallb (emit_ok eqfree biok_full) args = true ->
+    fst (AD release binop_impl EvalFull.builtin_full d fr this (VLam id ps b sc) args st) = r ->
+    exists r', fst (AD release binop_impl EvalFull.builtin_full d fr' this'
+                       (VLam id' ps (subst true (scope_map nanfix true sc) b) []) args st') = r' /\
+      orel eqfree biok_full nanfix r r' /\
+      (forall v, r = Ok v -> lf v = true -> r' = Ok v) /\ (r = ErrDepth <-> r' = ErrDepth).
+Print Assumptions C05_emit_equiv_higher_order_full.
+
+(* a closure whose body uses the newly covered built-ins (sort_by with a captured key function, sum,
+   group_by, to_string, slice) satisfies the premise *)
+Example C05_emit_ok_full_example :
+  emit_ok eqfree biok_full
+    (VLam 0%nat [AReq "l"%string]
+       (EList [Cm [] (ECall (EBuiltin B_sort_by) [EId "l"%string; EId "key"%string]) None;
+               Cm [] (ECall (EBuiltin B_sum) [ECall (EBuiltin B_slice) [EId "l"%string; ENum nzero; EId "n"%string]]) None;
+               Cm [] (ECall (EBuiltin B_group_by)
+                        [EId "l"%string; ELam [AReq "k"%string] (ECall (EBuiltin B_to_string) [EId "k"%string])]) None])
+       [("key"%string, VLam 1%nat [AReq "y"%string] (EBin Multiply (EId "y"%string) (EId "s"%string))
+                         [("s"%string, VNum (nb 0xbff0000000000000))]);
+        ("n"%string, VNum (nb 0x4000000000000000))]) = true.
+Proof. vm_compute. reflexivity. Qed.
+
+(* F53 through a built-in: includes([k1], k2) / len(unique([k1, k2])) with k1, k2 closures that differ
+   only in a captured value — true / 1 before emission, false / 2 after reload *)
+Lemma C05_includes_function_equality_refuted :
+  closed_after_capture f53_includes_fun = true /\
+  call_on_full f53_includes_fun (VNum nzero) = Ok (VBool true) /\
+  call_on_full (reloaded true true f53_includes_fun) (VNum nzero) = Ok (VBool false).
+Proof. exact f53_includes_refuted. Qed.
+Lemma C05_unique_function_equality_refuted :
+  closed_after_capture f53_unique_fun = true /\
+  call_on_full f53_unique_fun (VNum nzero) = Ok (VNum (num_of_Z 1)) /\
+  call_on_full (reloaded true true f53_unique_fun) (VNum nzero) = Ok (VNum (num_of_Z 2)).
+Proof. exact f53_unique_refuted. Qed.
+(* ... hence the hypothesis with NO built-in excluded is false: the exclusion in biok_full is exact *)
+Lemma C05_all_builtins_unrestricted_refuted : ~ all_builtins_rel_unrestricted.
+Proof. exact all_builtins_rel_unrestricted_refuted. Qed.
+
+(* The exclusion is exact with respect to the CODE as well: the built-ins excluded from [biok_full] are exactly the arms
+   of BuiltInFunction::call whose source text applies Value::equals (coq/gen/ArmObservers.v, regenerated from
+   blots-core/src/functions.rs on every run; exhaustive over the regenerated built-in table). *)
+Require Import Blots.gen.ArmObservers.
+Theorem C05_equality_exclusion_matches_source : forall b, biok_full b = negb (src_applies_equals b).
+Proof. destruct b; reflexivity. Qed.
+Check C05_equality_exclusion_matches_source : forall b, biok_full b = negb (src_applies_equals b).
+Print Assumptions C05_equality_exclusion_matches_source.
+
 (* ---- ... and for the COMPLETE operator table and built-in set (EvalAll.v: every built-in of the
    regenerated table, `^` through the oracle's powf; libm, Unicode tables, clock and lambda text are
    fields of the oracle record o), for every oracle: AllLf.v, from FullClosed.v / FullAgree.v generalised
